@@ -1,5 +1,5 @@
 (* C13 — Force-bias steps are bounded and follow the published force-biased density. *)
-From QV Require Import Model.ForceBias Proofs.ForceBiasProofs Proofs.ForceBiasIntegral Gen.Constants.
+From QV Require Import Model.ForceBias Proofs.ForceBiasProofs Proofs.ForceBiasIntegral Proofs.ForceBiasMono Gen.Constants.
 From Coq Require Import Lra.
 From Coquelicot Require Import Coquelicot.
 From Interval Require Import Tactic.
@@ -37,6 +37,19 @@ Theorem C13_favours_force_neg : forall z g, g < 0 -> 0 < z <= 1 -> P z g <= P (-
 Proof. exact favours_force_neg. Qed.
 Print Assumptions C13_favours_force_neg.
 
+(* ... INCREASINGLY with |F| delta / 2kT: the excess probability (density) of a move of size z along the force over the same move against
+   it, P(z, g) - P(-z, g) = (cosh g - cosh (g (2z - 1))) / sinh g, is non-negative and non-decreasing in g (derivative
+   [cosh(ag) cosh g - a sinh(ag) sinh g - 1] / sinh^2 g >= 0, mean value theorem); mirrored for forces of the other sign *)
+Theorem C13_bias_increasing : forall z g1 g2, 0 < z <= 1 -> 0 < g1 <= g2 -> P z g1 - P (- z) g1 <= P z g2 - P (- z) g2.
+Proof. exact bias_increasing. Qed.
+Print Assumptions C13_bias_increasing.
+Theorem C13_bias_increasing_neg : forall z g1 g2, 0 < z <= 1 -> 0 < g1 <= g2 -> P (- z) (- g1) - P z (- g1) <= P (- z) (- g2) - P z (- g2).
+Proof. exact bias_increasing_neg. Qed.
+Print Assumptions C13_bias_increasing_neg.
+(* the law for a force F is the mirror image of the law for -F *)
+Theorem C13_mirror : forall z g, P (- z) (- g) = P z g.
+Proof. exact P_flip. Qed.
+Print Assumptions C13_mirror.
 (* bound on every Cartesian component *)
 Theorem C13_bound : forall z delta scale, -1 <= z <= 1 -> 0 <= delta -> 0 <= scale -> Rabs (disp z delta scale) <= delta * scale.
 Proof. exact disp_bound. Qed.
